@@ -258,6 +258,11 @@ class Property:
     def flags_hit(self, case, replies):
         return []
 
+    def fill_undecided(self, case, obs, pred):
+        """Where the model declares an input outside its domain (it answers 'undecided'), the prediction
+        takes the observed value: only the independent oracle judges those positions."""
+        return pred
+
     def neighbours(self, case, rng):
         """Cases near a disagreeing case, for the failing-input search."""
         return []
@@ -330,7 +335,7 @@ def evaluate(prop, cases, driver, origin='generated'):
         else:
             obs = canonical(prop.observe(c))
             orc = prop.oracle(c, obs)
-        pred = canonical(prop.predict(c, rep))
+        pred = canonical(prop.fill_undecided(c, obs, canonical(prop.predict(c, rep))))
         hit = sorted(prop.flags_hit(c, rep))
         out.append(CaseResult(c, obs, pred, orc, hit, origin))
     return out
